@@ -60,6 +60,20 @@ def Iq(q, rg, expo):
 Iq.vectorized = True
 '''
 
+PYPLUG_NV = '''
+from math import exp
+from numpy import inf
+name = "verif_pynv"
+title = "python plug-in whose Iq is written per q value (not vectorised)"
+description = "exercises the automatic vectorisation wrapper"
+category = "shape-independent"
+parameters = [
+    ["rg", "Ang", 30.0, [0, inf], "", ""],
+]
+def Iq(q, rg):
+    return exp(-(q*rg)**2/3.0) + 0.5*float(q)
+'''
+
 BASE_MODELS = ["sphere", "cylinder", "core_shell_sphere", "hardsphere", "power_law"]
 
 
@@ -81,7 +95,8 @@ class Live(object):
     def model(self, name):
         from sasmodels import core
         if name not in self.models:
-            self.models[name] = core.load_model(self.plug if name == "@py" else name, dtype="double", platform="dll")
+            path = {"@py": self.plug, "@pynv": self.plug.replace("verif_pyvol", "verif_pynv")}.get(name, name)
+            self.models[name] = core.load_model(path, dtype="double", platform="dll")
         return self.models[name]
 
     def kernel(self, name, which):
@@ -190,6 +205,14 @@ def _ops():
         L.kernels.pop(("cylinder", "q1"), None)
         L.models.pop("cylinder", None)          # the next cylinder request loads the standard model again
         return "cylinder@gauss20:q1:cyl2", v, ch
+
+    def pynv(L):
+        # every call loads the plug-in anew (a second load in one process must behave like the first)
+        L.kernels.pop(("@pynv", "q1"), None)
+        L.models.pop("@pynv", None)
+        k = L.kernel("@pynv", "q1")
+        v, ch = _guarded(lambda p: call_kernel(k, p), {"rg": 25.0})
+        return "@pynv:q1", v, ch
 
     def sph2d(pname):
         def op(L):
@@ -321,7 +344,7 @@ def _ops():
         ("sph_fq", fq),
         ("cyl_disp", generic("cylinder", "q1", "cyl")), ("cyl_fq", generic("cylinder", "q1", "cyl2", True)),
         ("css", generic("core_shell_sphere", "q1", "css")),
-        ("py_1", generic("@py", "q1", "py1")), ("py_2", generic("@py", "q1", "py2")),
+        ("py_1", generic("@py", "q1", "py1")), ("py_2", generic("@py", "q1", "py2")), ("py_nv", pynv),
         ("pl", generic("power_law", "q1", "pl")),
         ("prod", generic("sphere@hardsphere", "q1", "ps")),
         ("mix", generic("sphere+cylinder", "q1", "mix")),
@@ -333,7 +356,7 @@ def _ops():
     return ops
 
 
-QUICK_OPS = ["mk_q2", "sph_monoflag", "sph_disp", "sph_zero", "sph2d_mag", "sph2d_mono", "sph_fq", "cyl_fq", "cyl_mesh", "cyl_ngauss", "py_1", "py_2",
+QUICK_OPS = ["mk_q2", "sph_monoflag", "sph_disp", "sph_zero", "sph2d_mag", "sph2d_mono", "sph_fq", "cyl_fq", "cyl_mesh", "cyl_ngauss", "py_nv", "py_2",
              "prod", "mix", "direct", "sv_set", "sv_eval", "sv_clone_mut", "svps", "release", "reload"]
 
 
@@ -574,6 +597,8 @@ def explore(ctx):
     plug = os.path.join(ctx.scratch, "verif_pyvol.py")
     with open(plug, "w") as fh:
         fh.write(PYPLUG)
+    with open(plug.replace("verif_pyvol", "verif_pynv"), "w") as fh:
+        fh.write(PYPLUG_NV)
     STATE["plug"] = plug
     import sasmodels.core  # noqa - the pristine parent imports the library but never loads a model
     ops = _op_table(ctx.quick)
@@ -631,6 +656,8 @@ def replay(case, ctx):
     plug = os.path.join(ctx.scratch, "verif_pyvol.py")
     with open(plug, "w") as fh:
         fh.write(PYPLUG)
+    with open(plug.replace("verif_pyvol", "verif_pynv"), "w") as fh:
+        fh.write(PYPLUG_NV)
     STATE["plug"] = plug
     import sasmodels.core  # noqa
     ops = _op_table(False)
